@@ -114,17 +114,17 @@ type K struct {
 	Sched *rand.Rand // schedule choices
 	Env   *rand.Rand // delays, fault coins, sizes
 
-	posted  []*Req
-	parked  []*Req
-	events  []*Event // small; kept sorted on insertion
-	evSeq   uint64
-	reqSeq  uint64
-	Seq     uint64 // global history sequence number (one per performed step / effect flush)
-	Steps   int
-	effects []string
-	digest  uint64
-	Log     []string
-	Choices []uint16
+	posted   []*Req
+	parked   []*Req
+	events   []*Event // small; kept sorted on insertion
+	evSeq    uint64
+	reqSeq   uint64
+	Seq      uint64 // global history sequence number (one per performed step / effect flush)
+	Steps    int
+	effects  []string
+	digest   uint64
+	Log      []string
+	Choices  []uint16
 	Diverged bool
 
 	tasks    map[uint64]*Task
